@@ -45,7 +45,9 @@ def r1_rejection_noop(ctx):
     # interior mutability
     adt = ctx.prog.adts.get("melstf::state::UnsealedState")
     r.anchor(adt, "ADT UnsealedState")
-    bad_words = ("Cell<", "RefCell<", "Mutex<", "RwLock<", "Atomic", "UnsafeCell")
+    # types that can be written through a shared reference — and, behind an Arc, are SHARED by every clone of the state: a discarded or rejected copy then leaves
+    # traces in the surviving one (DashMap / OnceLock / OnceCell / Lazy are interior-mutable containers like Mutex<HashMap>)
+    bad_words = ("Cell<", "RefCell<", "Mutex<", "RwLock<", "Atomic", "UnsafeCell", "DashMap<", "DashSet<", "OnceLock<", "OnceCell<", "Lazy<", "LazyLock<", "Sender<", "Receiver<")
     for f in adt["variants"][0]["fields"]:
         ty = f["ty"]
         r.check(not any(w in ty for w in bad_words), "interior/" + f["name"], "%s: %s" % (f["name"], ty), "field %s has type %s (interior mutability: a rejected batch could leave traces)" % (f["name"], ty))
